@@ -112,7 +112,9 @@ def replay(path):
 def trans_families(tier):
     """(tag, cfg) list: skeletons x per-rule translation variants, trees emitted."""
     fams = [("T2a", mcgram_cfg([1], [11, 12], 2, 2, 4, False, [0, 1, 2, 3, 4, 5, 7, 8], True)),
-            ("T3amb", mcgram_cfg([1], [11], 3, 2, 5, False, [1, 4, 9], True))]
+            ("T3amb", mcgram_cfg([1], [11], 3, 2, 5, False, [1, 4, 9], True)),
+            # abstract nodes of cost 0 (shared nodes whose whole subtree costs nothing; the visit flag of the cost pass is the sign of the field)
+            ("T2z", mcgram_cfg([1], [11, 12], 2, 2, 3, False, [1, 4, 10, 11], True))]
     if tier == "thorough":
         fams += [("T2b", mcgram_cfg([1, 2], [11, 12], 2, 2, 4, False, [0, 1, 4, 5, 6, 7], True)),
                  ("T3c", mcgram_cfg([1], [11, 12], 3, 2, 4, False, [1, 4, 5], True))]
@@ -126,7 +128,7 @@ def check_trans(res, scratch, tier, seed, prop, matrix, rule):
     mk = lambda vec: blocks_from_vector(vec, matrix, codemap="ascii", mems=(0, 0, 1, 2))
     for tag, cfg in trans_families(tier):
         run_family(res, scratch, tag, cfg, mk, builds=builds, mine=only(prop), timeout=3000)
-    corpus_part(res, scratch, tier, seed, prop, matrix, ("curated", "random_trans", "random_amb"), trees=True, builds=builds, mems=(0, 0, 1, 2))
+    corpus_part(res, scratch, tier, seed, prop, matrix, ("curated", "amb_chains", "random_trans", "random_amb"), trees=True, builds=builds, mems=(0, 0, 1, 2))
     # inputs of 7-13 tokens: membership of every returned tree decided by TLC (Member.tla) instead of enumerating all translations
     long_trace_part(res, scratch, tier, seed, builds, (prop,))
     if prop in ("C03", "C05"):
@@ -426,6 +428,8 @@ def corpus_entries(tier, seed, kinds):
     ents = []
     if "curated" in kinds:
         ents += _corpus.curated()
+    if "amb_chains" in kinds:
+        ents += _corpus.ambig_chain_family()
     if "loops" in kinds:
         ents += _corpus.loop_shapes() + _corpus.loop_repeats()
     if "chains" in kinds:
